@@ -70,6 +70,15 @@ def gen_history(rng, tier, force=None):
                     HX.apply_model(model, w)
                     ops.append(w)
             ops.extend(probes(False))
+    if mode != "direct" and rng.random() < 0.1:
+        prior, body = HX.gen_there_and_back(rng)
+        for w in prior:
+            HX.apply_model(model, w)
+            ops.append(w)
+        op = ("batch", body, None)
+        HX.apply_model(model, op)
+        ops.append(op)
+        ops.extend(probes(False))
     i = 0
     while i < nw:
         batched = mode == "batched" or (mode == "mixed" and rng.random() < 0.4)
@@ -96,6 +105,27 @@ def gen_history(rng, tier, force=None):
             ops.append(w)
             i += 1
         ops.extend(probes(False))
+    if rng.random() < 0.35:
+        # there and back WITHOUT lookups in between: reads at some root R, then writes that change the trie and writes that
+        # restore exactly the earlier mapping (so the root is R again), then reads. Anything remembered from the first reads
+        # (a decoded node, a memoised result) is stale by then unless it is content-addressed AND immutable.
+        quiet = []
+        if model and rng.random() < 0.5:
+            k = rng.choice(sorted(model))
+            old = model[k]
+            quiet = [("del", k, rng.choice(["meth", "item"])), ("set", k, old, rng.choice(["meth", "item"]))]
+        else:
+            k = HX.gen_key(rng, long_pool)
+            if k not in model:
+                quiet = [("set", k, HX.gen_value(rng), "meth"), ("del", k, "item")]
+        if quiet:
+            if mode != "direct" and rng.random() < 0.3:
+                ops.append(("batch", quiet + [("get", k, "meth")], None))
+            else:
+                ops.extend(quiet)
+            ops.append(("get", k, "meth"))
+            ops.append(("exists", k, "item"))
+            ops.extend(probes(False))
     return {"prune": prune, "ops": ops, "mode": mode}
 
 
